@@ -10,7 +10,7 @@ From Bio.gen Require Import ImpGen.
 From Bio.Model Require Import GoSem GoLib.
 From Bio.Model Require Sam Bed.
 From Bio.Proofs Require Import ImpProofs ImpProofsB ImpProofsE ImpProofsG ImpProofsL ImpProofsN ImpProofsQ.
-From Bio.Proofs Require ImpProofsJ ImpProofsK ImpProofsR NewickProofsC BaseProofs FastaProofsB FastqProofsB.
+From Bio.Proofs Require ImpProofsI ImpProofsJ ImpProofsK ImpProofsR NewickProofsC BaseProofs FastaProofsB FastqProofsB.
 From Bio.Model Require Fasta Fastq Newick.
 Open Scope Z_scope.
 
@@ -557,3 +557,127 @@ Proof.
 Qed.
 
 End NewickStop.
+
+(* ---- newick: Node.traverse (PreOrder / PostOrder) ----------------------------------------------------------- *)
+Section TraverseStop.
+Import ImpProofsI.
+Variable p : nat.
+
+Definition trs_body (pre : bool) : tr_state -> res tr_state (list imp_newick_Node) :=
+  (fun '((stack, out__) : ((list imp_newick_traversalStep) * _)) => let stepi := (Z.sub (go_len stack) (1)%Z) in go_index stack stepi (fun t__17 => let step := t__17 in (if (andb pre (Z.eqb (imp_newick_traversalStep_i step) (0)%Z)) then (let out__ := out__ ++ [(imp_newick_traversalStep_n step)] in let t__18 := negb (Nat.eqb (length out__) p) in (if (negb t__18) then Ret out__ else (if (Z.eqb (imp_newick_traversalStep_i step) (go_len (imp_newick_Node_Children (imp_newick_traversalStep_n step)))) then (if (negb pre) then (let out__ := out__ ++ [(imp_newick_traversalStep_n step)] in let t__19 := negb (Nat.eqb (length out__) p) in (if (negb t__19) then Ret out__ else go_slice stack 0%Z (Z.sub (go_len stack) (1)%Z) (fun t__20 => let stack := t__20 in Next (stack, out__)))) else go_slice stack 0%Z (Z.sub (go_len stack) (1)%Z) (fun t__21 => let stack := t__21 in Next (stack, out__))) else go_index (imp_newick_Node_Children (imp_newick_traversalStep_n step)) (imp_newick_traversalStep_i step) (fun t__22 => let stack := (stack ++ [(Imp_newick_traversalStep t__22 (0)%Z)]) in go_index stack stepi (fun t__23 => go_index stack stepi (fun t__24 => go_set stack stepi (imp_newick_traversalStep_with_i t__24 (Z.add (imp_newick_traversalStep_i t__23) (1)%Z)) (fun t__25 => let stack := t__25 in Next (stack, out__)))))))) else (if (Z.eqb (imp_newick_traversalStep_i step) (go_len (imp_newick_Node_Children (imp_newick_traversalStep_n step)))) then (if (negb pre) then (let out__ := out__ ++ [(imp_newick_traversalStep_n step)] in let t__26 := negb (Nat.eqb (length out__) p) in (if (negb t__26) then Ret out__ else go_slice stack 0%Z (Z.sub (go_len stack) (1)%Z) (fun t__27 => let stack := t__27 in Next (stack, out__)))) else go_slice stack 0%Z (Z.sub (go_len stack) (1)%Z) (fun t__28 => let stack := t__28 in Next (stack, out__))) else go_index (imp_newick_Node_Children (imp_newick_traversalStep_n step)) (imp_newick_traversalStep_i step) (fun t__29 => let stack := (stack ++ [(Imp_newick_traversalStep t__29 (0)%Z)]) in go_index stack stepi (fun t__30 => go_index stack stepi (fun t__31 => go_set stack stepi (imp_newick_traversalStep_with_i t__31 (Z.add (imp_newick_traversalStep_i t__30) (1)%Z)) (fun t__32 => let stack := t__32 in Next (stack, out__))))))))).
+
+Definition trs_final : tr_state -> res unit (list imp_newick_Node) := fun '(stack, out__) => Ret out__.
+
+Lemma traverse_loop_acc pre : forall fm stack acc r,
+  Newick.traverse_loop pre fm stack acc = Ok r -> exists more, r = rev acc ++ more.
+Proof.
+  induction fm as [|fm IH]; intros stack acc r Hr.
+  - destruct stack as [|[[p0 n] i] rest]; [|discriminate]. cbn in Hr. injection Hr as <-. exists []. rewrite app_nil_r. reflexivity.
+  - destruct stack as [|[[p0 n] i] rest].
+    + cbn in Hr. injection Hr as <-. exists []. rewrite app_nil_r. reflexivity.
+    + cbn [Newick.traverse_loop] in Hr.
+      assert (Hsub : forall acc' r', (exists m', rev acc' = rev acc ++ m') -> (exists more, r' = rev acc' ++ more) ->
+                                     exists more, r' = rev acc ++ more).
+      { intros acc' r' (m' & E) (more & ->). rewrite E, <- app_assoc. eauto. }
+      assert (Hsame : exists m', rev acc = rev acc ++ m') by (exists []; rewrite app_nil_r; reflexivity).
+      assert (Hone : forall x, exists m', rev (x :: acc) = rev acc ++ m') by (intros x; cbn [rev]; eauto).
+      assert (Htwo : forall x y, exists m', rev (y :: x :: acc) = rev acc ++ m')
+        by (intros x y; cbn [rev]; rewrite <- app_assoc; eauto).
+      destruct (Nat.eqb i (length (Newick.t_children n))).
+      * apply IH in Hr. destruct pre; cbn [andb] in Hr; destruct (Nat.eqb i 0); cbn [andb] in *;
+          eapply Hsub; eauto.
+      * destruct (nth_error (Newick.t_children n) i); [|discriminate]. apply IH in Hr.
+        destruct pre; cbn [andb] in Hr; destruct (Nat.eqb i 0); eapply Hsub; eauto.
+Qed.
+
+Lemma trs_loop pre : forall fm fuel stack acc r,
+  Newick.traverse_loop pre fm stack acc = Ok r -> (fm < fuel)%nat -> may_go p (map nd (rev acc)) ->
+  after (go_while fuel tr_cond (trs_body pre) (rev (map step_of stack), map nd (rev acc))) trs_final
+  = Ret (take_stop p (map nd r)).
+Proof.
+  induction fm as [|fm IH]; intros fuel stack acc r Hr Hf Hgo; (destruct fuel as [|fuel]; [lia|]);
+    cbn [go_while]; unfold tr_cond at 1; cbv beta iota.
+  - destruct stack as [|[[p0 n] i] rest]; [|discriminate]. cbn [Newick.traverse_loop] in Hr. injection Hr as <-.
+    cbn [map rev go_len length Z.ltb Z.compare Z.of_nat after trs_final].
+    rewrite take_stop_short; [reflexivity | unfold may_go in Hgo; rewrite map_length in *; lia].
+  - destruct stack as [|[[p0 n] i] rest].
+    + cbn [Newick.traverse_loop] in Hr. injection Hr as <-.
+      cbn [map rev go_len length Z.ltb Z.compare Z.of_nat after trs_final].
+      rewrite take_stop_short; [reflexivity | unfold may_go in Hgo; rewrite map_length in *; lia].
+    + cbn [Newick.traverse_loop] in Hr. cbn [map rev].
+      set (P := rev (map step_of rest)) in *.
+      unfold go_len at 1. rewrite app_length. cbn [length].
+      replace (0 <? Z.of_nat (length P + 1)) with true by lia.
+      unfold trs_body at 1. cbv beta iota. cbv zeta.
+      assert (Hst : go_len (P ++ [step_of (p0, n, i)]) - 1 = go_len P) by (unfold go_len; rewrite app_length; cbn [length]; lia).
+      rewrite Hst. rewrite (go_index_last P _ _ _ eq_refl).
+      cbn [step_of imp_newick_traversalStep_i imp_newick_traversalStep_n].
+      rewrite !children_of.
+      replace (go_len (map node_of (Newick.t_children n))) with (Z.of_nat (length (Newick.t_children n))) by (unfold go_len; rewrite map_length; reflexivity).
+      replace (Z.of_nat i =? 0) with (Nat.eqb i 0) by (destruct (Nat.eqb_spec i 0); lia).
+      replace (Z.of_nat i =? Z.of_nat (length (Newick.t_children n))) with (Nat.eqb i (length (Newick.t_children n)))
+        by (destruct (Nat.eqb_spec i (length (Newick.t_children n))); lia).
+      assert (Hpush : forall (a : list Newick.occ), map nd (rev a) ++ [node_of n] = map nd (rev ((rev p0, n) :: a))).
+      { intros a. cbn [rev]. rewrite map_app. reflexivity. }
+      assert (Hpop : forall S' (k : list imp_newick_traversalStep -> res S' (list imp_newick_Node)),
+                 go_slice (P ++ [step_of (p0, n, i)]) 0 (go_len P) k = k P)
+        by (intros; apply go_slice_init).
+      cbn [step_of] in Hpop.
+      assert (Hdesc : forall c (out : list imp_newick_Node), nth_error (Newick.t_children n) i = Some c ->
+        go_index (map node_of (Newick.t_children n)) (Z.of_nat i) (fun t__6 =>
+          let stack := ((P ++ [Imp_newick_traversalStep (node_of n) (Z.of_nat i)]) ++ [(Imp_newick_traversalStep t__6 (0)%Z)]) in
+          go_index stack (go_len P) (fun t__7 => go_index stack (go_len P) (fun t__8 =>
+            go_set stack (go_len P) (imp_newick_traversalStep_with_i t__8 (Z.add (imp_newick_traversalStep_i t__7) (1)%Z))
+              (fun t__9 => Next (t__9, out)))))
+        = Next (S := tr_state) (R := list imp_newick_Node) (rev (map step_of ((i :: p0, c, O) :: (p0, n, S i) :: rest)), out)).
+      { intros c out Hc. rewrite (go_index_some _ (Z.of_nat i) (node_of c)) by (first [lia | rewrite Nat2Z.id, nth_error_map, Hc; reflexivity]).
+        cbv zeta. rewrite <- app_assoc. cbn [app].
+        rewrite !(go_index_mid P _ _ _ _ eq_refl). rewrite (go_set_mid P _ _ _ _ _ eq_refl).
+        cbn [map rev step_of imp_newick_traversalStep_with_i imp_newick_traversalStep_i imp_newick_traversalStep_n]. fold P.
+        rewrite <- app_assoc. cbn [app]. replace (Z.of_nat i + 1) with (Z.of_nat (S i)) by lia. reflexivity. }
+      (* a declined yield ends the run with the items so far, which are a prefix of the full run *)
+      assert (Hhit : forall fm' st' r', Newick.traverse_loop pre fm' st' ((rev p0, n) :: acc) = Ok r' ->
+                 length (map nd (rev acc) ++ [node_of n]) = p ->
+                 take_stop p (map nd r') = map nd (rev acc) ++ [node_of n]).
+      { intros fm' st' r' Hr' Ep. destruct (traverse_loop_acc pre _ _ _ _ Hr') as (more & ->).
+        cbn [rev]. rewrite <- app_assoc, map_app. cbn [app map]. change (nd (rev p0, n)) with (node_of n).
+        apply take_stop_hit. exact Ep. }
+      assert (Hnext : Nat.eqb (length (map nd (rev acc) ++ [node_of n])) p = false ->
+                      may_go p (map nd (rev ((rev p0, n) :: acc)))).
+      { intros E. rewrite <- Hpush. apply may_go_next; auto. }
+      destruct pre; cbn [andb negb] in *.
+      * destruct (Nat.eqb i 0) eqn:E0; cbv iota.
+        -- destruct (Nat.eqb (length (map nd (rev acc) ++ [node_of n])) p) eqn:Ep; cbn [negb]; cbv iota.
+           ++ apply Nat.eqb_eq in Ep. cbn [after].
+              destruct (Nat.eqb i (length (Newick.t_children n))).
+              ** rewrite (Hhit _ _ _ Hr Ep). reflexivity.
+              ** destruct (nth_error (Newick.t_children n) i); [|discriminate]. rewrite (Hhit _ _ _ Hr Ep). reflexivity.
+           ++ rewrite Hpush.
+              destruct (Nat.eqb i (length (Newick.t_children n))) eqn:El; cbv iota.
+              ** rewrite Hpop. apply (IH fuel _ _ _ Hr); [lia | auto].
+              ** destruct (nth_error (Newick.t_children n) i) as [c|] eqn:Hc; [|discriminate].
+                 rewrite (Hdesc c _ eq_refl). apply (IH fuel _ _ _ Hr); [lia | auto].
+        -- destruct (Nat.eqb i (length (Newick.t_children n))) eqn:El; cbv iota.
+           ++ rewrite Hpop. apply (IH fuel _ _ _ Hr); [lia | auto].
+           ++ destruct (nth_error (Newick.t_children n) i) as [c|] eqn:Hc; [|discriminate].
+              rewrite (Hdesc c _ eq_refl). apply (IH fuel _ _ _ Hr); [lia | auto].
+      * destruct (Nat.eqb i (length (Newick.t_children n))) eqn:El; cbv iota.
+        -- destruct (Nat.eqb (length (map nd (rev acc) ++ [node_of n])) p) eqn:Ep; cbn [negb]; cbv iota.
+           ++ apply Nat.eqb_eq in Ep. cbn [after]. rewrite (Hhit _ _ _ Hr Ep). reflexivity.
+           ++ rewrite Hpush, Hpop. apply (IH fuel _ _ _ Hr); [lia | auto].
+        -- destruct (nth_error (Newick.t_children n) i) as [c|] eqn:Hc; [|discriminate].
+           rewrite (Hdesc c _ eq_refl). apply (IH fuel _ _ _ Hr); [lia | auto].
+Qed.
+
+Theorem imp_traverse_stop_ok fuel pre t l : (2 * Newick.size t + 2 < fuel)%nat ->
+  Newick.traverse pre t = Ok l ->
+  imp_newick_Node_traverse_stop p fuel (node_of t) pre = Ret (take_stop p (map nd l)).
+Proof.
+  intros Hf Ht. unfold Newick.traverse in Ht. unfold imp_newick_Node_traverse_stop. cbv zeta.
+  change (go_while fuel _ _ ([Imp_newick_traversalStep (node_of t) 0], []))
+    with (go_while fuel tr_cond (trs_body pre) (rev (map step_of [(([] : Newick.path), t, O)]), map nd (rev []))).
+  change (after ?m _) with (after m trs_final).
+  apply (trs_loop pre _ fuel _ _ _ Ht Hf). unfold may_go. cbn. lia.
+Qed.
+
+End TraverseStop.
